@@ -352,7 +352,7 @@ theorem parsesO_streamHeader_refuses (e : Entry) (p : Nat) (hf : e.Fits) (hx : E
 
 /-! ### Soundness on arbitrary input: whatever the bytes, whatever fault is injected -/
 
-theorem M.bind_ok_inv {α β : Type} {m : M α} {f : α → M β} {fa : Option Nat} {d d' : Dev} {b : β}
+theorem M.bind_ok_elim {α β : Type} {m : M α} {f : α → M β} {fa : Option Nat} {d d' : Dev} {b : β}
     (h : (m >>= f) fa d = (.ok b, d')) : ∃ a d1, m fa d = (.ok a, d1) ∧ f a fa d1 = (.ok b, d') := by
   change (match m fa d with
     | (.ok a, d1) => f a fa d1
@@ -385,7 +385,7 @@ theorem parseExtraField_flags' {fuel : Nat} {f : FileData} {bs : Bytes} {r : Fil
     r.1.encrypted = f.encrypted ∧ r.1.usingDataDescriptor = f.usingDataDescriptor := by
   subst h; exact parseExtraField_flags _ _ _
 
-theorem M.pure_ok_inv {α : Type} {a b : α} {fa : Option Nat} {d d' : Dev}
+theorem M.pure_ok_eq {α : Type} {a b : α} {fa : Option Nat} {d d' : Dev}
     (h : (Pure.pure a : M α) fa d = (.ok b, d')) : a = b := by
   cases h; rfl
 
@@ -397,23 +397,23 @@ theorem streamHeader_some_sound (fa : Option Nat) (d d' : Dev) (f : FileData)
     (h : streamHeader fa d = (.ok (some f), d')) :
     f.encrypted = false ∧ f.usingDataDescriptor = false ∧ f.method.decodable = true := by
   unfold streamHeader at h
-  obtain ⟨sig, d1, -, h⟩ := M.bind_ok_inv h
+  obtain ⟨sig, d1, -, h⟩ := M.bind_ok_elim h
   split at h
-  · cases M.pure_ok_inv h
+  · cases M.pure_ok_eq h
   · split at h
     · cases h
-    · obtain ⟨vmb, d2, -, h⟩ := M.bind_ok_inv h
-      obtain ⟨flags, d3, -, h⟩ := M.bind_ok_inv h
-      obtain ⟨cm, d4, -, h⟩ := M.bind_ok_inv h
-      obtain ⟨t, d5, -, h⟩ := M.bind_ok_inv h
-      obtain ⟨dt, d6, -, h⟩ := M.bind_ok_inv h
-      obtain ⟨crc, d7, -, h⟩ := M.bind_ok_inv h
-      obtain ⟨cs, d8, -, h⟩ := M.bind_ok_inv h
-      obtain ⟨us, d9, -, h⟩ := M.bind_ok_inv h
-      obtain ⟨nl, d10, -, h⟩ := M.bind_ok_inv h
-      obtain ⟨xl, d11, -, h⟩ := M.bind_ok_inv h
-      obtain ⟨nm, d12, -, h⟩ := M.bind_ok_inv h
-      obtain ⟨xf, d13, -, h⟩ := M.bind_ok_inv h
+    · obtain ⟨vmb, d2, -, h⟩ := M.bind_ok_elim h
+      obtain ⟨flags, d3, -, h⟩ := M.bind_ok_elim h
+      obtain ⟨cm, d4, -, h⟩ := M.bind_ok_elim h
+      obtain ⟨t, d5, -, h⟩ := M.bind_ok_elim h
+      obtain ⟨dt, d6, -, h⟩ := M.bind_ok_elim h
+      obtain ⟨crc, d7, -, h⟩ := M.bind_ok_elim h
+      obtain ⟨cs, d8, -, h⟩ := M.bind_ok_elim h
+      obtain ⟨us, d9, -, h⟩ := M.bind_ok_elim h
+      obtain ⟨nl, d10, -, h⟩ := M.bind_ok_elim h
+      obtain ⟨xl, d11, -, h⟩ := M.bind_ok_elim h
+      obtain ⟨nm, d12, -, h⟩ := M.bind_ok_elim h
+      obtain ⟨xf, d13, -, h⟩ := M.bind_ok_elim h
       dsimp only at h
       generalize hr : parseExtraField _ _ _ = r at h
       obtain ⟨result, perr⟩ := r
@@ -434,7 +434,7 @@ theorem streamHeader_some_sound (fa : Option Nat) (d d' : Dev) (f : FileData)
           · rename_i h0 h3
             have hf : result = f := by
               revert hh
-              cases result.method <;> intro hh <;> first | exact Option.some.inj (M.pure_ok_inv hh) | cases hh
+              cases result.method <;> intro hh <;> first | exact Option.some.inj (M.pure_ok_eq hh) | cases hh
             have hm : result.method.decodable = true := by
               revert hh
               cases result.method <;> intro hh <;> first | rfl | cases hh
